@@ -586,6 +586,21 @@ def gen_ext_logical(rng, depth):
             return ["op", rng.choice(["==", "!="]), gen_ext_comparable(rng, 0), rng.choice(["undef", "nil", ["lit", True], ["lit", False]])]
         if r2 < 0.85:
             return ["ctx"] + gen_singular_segs(rng, ["k", "s", "names", "o", "a", "zz"], 2)
+        if r2 < 0.93:
+            # the documented typeof(): of a singular query, of no node, of several nodes ("array"), against every word it can return
+            def targ():
+                t = rng.random()
+                if t < 0.5:
+                    return ["self"] + gen_singular_segs(rng)
+                if t < 0.65:
+                    return ["self", ["sel", "wild"]]
+                if t < 0.75:
+                    return ["root", False] + gen_singular_segs(rng)
+                return gen_query_expr(rng, 0)
+            lhs = ["fn", "typeof", targ()]
+            rhs = ["fn", "typeof", targ()] if rng.random() < 0.15 else \
+                ["lit", rng.choice(["number", "string", "array", "object", "boolean", "null", "undefined", "int", "float", "Number", ""])]
+            return ["op", rng.choice(["==", "==", "!=", "<"]), lhs, rhs]
         return gen_logical(rng, 0)
     if r < 0.6:
         return ["not", gen_ext_logical(rng, depth - 1)]
